@@ -47,7 +47,7 @@ META = {
             ">=1 date at which >=3 different actors saw a return/exception/exit (a tie the kernel had to order)",
     "assumptions": ["two runs of a group execute the same binary with the same scenario and engine flags; only environment variables read "
                     "by the allocator (and VERIF padding read by the harness before the Engine exists) differ"],
-    "ready": False,
+    "ready": True,
 }
 
 FILL = "x" * 6000
